@@ -154,6 +154,11 @@ def renderBSeg (s : List Char) : BSeg → List Char
 
 def stepSites (w : List String) : Option String :=
   match w with
+  | ["ic", vm, nBk, rc, v, nRv] =>
+    match vm.toNat?, nBk.toInt?, rc.toNat?, v.toInt?, nRv.toNat? with
+    | some vm, some nBk, some rc, some v, some nRv =>
+      some (showO (fun (_ : Bool) => "ok") (imageCellRel vm (optN nBk) (fun _ => rc) v nRv))
+    | _, _, _, _, _ => some "bad-op"
   | ["gr", flags] =>
     some (showO (fun (n : Nat) => "ok " ++ toString n) (getRows (if flags = "-" then [] else flags.toList.map (· == '1'))))
   | ["bs", h] =>
